@@ -157,6 +157,8 @@ def cmd_run(argv):
                     "tier": tier,
                     "seed": seed,
                     "plan": best,
+                    "plan_unshrunk": plan if best is not plan else None,
+                    "violation_unshrunk": v,
                     "violation": bv,
                     "trace_digest": r2.trace_digest,
                     "sigpy_tree_sha": sha,
@@ -191,6 +193,9 @@ def cmd_replay(argv):
     if "--known" in argv:
         world.known = load_known(world.property_id)
     world.warmup(replay.get("config", "default"))
+    if "--unshrunk" in argv and replay.get("plan_unshrunk") is not None:
+        replay["plan"] = replay["plan_unshrunk"]
+        replay["violation"] = replay.get("violation_unshrunk")
     res = world.execute(replay["plan"])
     out = {
         "violation": res.violation,
